@@ -93,6 +93,14 @@ func (m mergeRunner) Run(c *Ctx, i int) CaseResult {
 	} else {
 		r := c.Rand(i + map[string]int{"C03": 21000000, "C09": 22000000, "C10": 23000000}[m.prop])
 		tbl := mergeTable()
+		if r.Intn(3) == 0 {
+			// interface inheritance (legal SDL): every service writes `interface Named implements Node`
+			for ti := range tbl {
+				if tbl[ti].Name == "Named" {
+					tbl[ti].Ifaces = []string{"Node"}
+				}
+			}
+		}
 		k := 2 + r.Intn(3)
 		var svcs [][]mDef
 		for s := 0; s < k; s++ {
